@@ -280,6 +280,8 @@ type vfRouteScenario struct {
 	// WMAdvance: the first watermark-only batch after the last scripted batch carries a high watermark this much
 	// above the last batch's (the source's watermark advances without tasks for this cluster)
 	WMAdvance int64 `json:"wm_advance,omitempty"`
+	// OverlapInPlace (with Overlap): target shard k reconnects on the instance it is already connected to
+	OverlapInPlace int `json:"overlap_in_place,omitempty"`
 	// HungSource: the source cluster does not end a pull stream when the proxy half-closes it (an unresponsive or dead
 	// source stream: Recv returns only when the stream's context is cancelled)
 	HungSource bool `json:"hung_source,omitempty"`
@@ -1283,6 +1285,7 @@ func (e *vfRouteExec) runHandler(name string, srv adminservice.AdminServiceServe
 			}
 			ss.returned = true
 			ss.cancel() // gRPC cancels the server-stream context when the handler returns
+			e.logf("handler of %s returned", name)
 		}()
 		ss.retErr = srv.StreamWorkflowReplicationMessages(ss)
 	})
